@@ -168,10 +168,11 @@ impl<'s> Gen<'s> {
                 _ => o.max_len_f,
             }
         };
-        let len = match r.below(10) {
-            0 => r.range(0, 3.min(max_len)),
-            1..=5 => r.range(0, 40.min(max_len)),
-            6..=8 => r.range(0, max_len),
+        let len = match r.below(20) {
+            0 | 1 => r.range(0, 3.min(max_len)),
+            2..=11 => r.range(0, 40.min(max_len)),
+            12..=17 => r.range(0, max_len.min(128)),
+            18 => r.range(0, 300.min(max_len)),
             _ => r.range(0, max_len),
         };
         let nt = r.pick(o.nts);
